@@ -257,8 +257,9 @@ PROPS = {
     ),
     "C17": dict(
         explanation="relational harness: two runs of the real Create on the same symbolic contents must produce byte-identical write logs",
-        assumptions=["PAR2 (PAR1 order is significant by format; PAR1 determinism is part of the C04/C10 harnesses)", "os.Getwd is modelled by zzverifrt.SetCwd (a real chdir on native replay)"],
+        assumptions=["PAR2 (PAR1 order is significant by format; PAR1 determinism is part of the C04/C10 harnesses)", "fileIDLess is replaced by its specification in the scenario harnesses; the replacement is justified by C05_fileIDLess, run under C17 as well", "os.Getwd is modelled by zzverifrt.SetCwd (a real chdir on native replay)"],
         jobs=[
+            J("par2", "C05_fileIDLess", bound="all pairs of 16-byte ids: the real fileIDLess == little-endian 128-bit unsigned comparison (the summary the C17 scenarios sort by; a comparator that is not a total order makes the packet order depend on the input order)"),
             J("par2", "C17_order_goroutines", bound="2 files of 5 and 4 symbolic bytes, 2 blocks, input list reversed, goroutines 1 vs 1..3"),
             J("par2", "C17_order_three", tier="thorough", bound="3 files, every permutation of the input list, goroutines 1 vs 1..3", timeout=3000),
             J("par2", "C17_map_order", bound="2 files, 3 blocks, every iteration order of every map ranged over during the second run (symbolic permutation)"),
